@@ -487,8 +487,10 @@ class Ctx:
         ev = {"property_id": self.prop, "tier": self.tier, "seed": self.seed, "level": self.level,
               "coverage": cov, "assumptions": self.assumptions, "wall_s": round(time.time() - self.t0, 1),
               "violations": len(self.violations)}
-        os.makedirs(EVID, exist_ok=True)
-        with open(os.path.join(EVID, self.prop + ".json"), "w") as f:
+        # checks beyond the listed properties (ids not of the form Cnn) keep their evidence apart from evidence/<property>.json
+        evdir = EVID if self.prop.startswith("C") else os.path.join(EVID, "extra")
+        os.makedirs(evdir, exist_ok=True)
+        with open(os.path.join(evdir, self.prop + ".json"), "w") as f:
             json.dump(ev, f, indent=1)
         log("%s tier=%s seed=%d: states=%d evaluations=%d judged=%d traces=%d distinct=%d violations=%d known=%s wall=%.1fs" % (
             self.prop, self.tier, self.seed, self.states, self.evaluations, self.judged, self.traces, len(self.distinct),
